@@ -10,6 +10,7 @@ import re
 import lcstage, guards
 from paths import Explorer
 from facts import Operand
+from expr import show
 
 LEVEL = 'proof'
 EXPLANATION = ('Typestate automaton over the evmap write handle and the set of buffered lifecycles, run on all normal CFG paths of the lifecycle stage: '
@@ -108,8 +109,39 @@ def run(F, chk):
                 for (e, t, D) in guards.known(cfg, E, u):
                     if t is True and isinstance(e, tuple) and e[0] == 'call' and e[1].endswith('::contains'):
                         okc = True
-            if ups and cls and okc:
-                T3.ok(sample={'end_of_input_updates': len(ups), 'refreshes': len(cls), 'update_guard': 'buffered_lcs.contains(lc.id)'})
+            # the publication loops must look at every lifecycle: they may only be left when the iteration is
+            # exhausted or when the counter of lifecycles still to publish reached 0
+            loops = cfg.loops()
+            bad_exit = None
+            n_exits = 0
+            for u in ups:
+                for hd, lb in loops.items():
+                    if u not in lb or not lb <= region | lb:
+                        continue
+                    if not all(x in region for x in lb):
+                        continue
+                    for x in lb:
+                        for sx in cfg.succ[x]:
+                            if sx in lb or b.blocks[sx].term.k == 'unreachable':
+                                continue
+                            n_exits += 1
+                            blkx = b.blocks[x]
+                            okx = False
+                            if blkx.term.k == 'switch':
+                                cx = st.E.switch_cond(blkx)
+                                sc = show(cx)
+                                if sc.startswith('discr(Iterator::next(') or sc.startswith('discr(IntoIterator'):
+                                    okx = True
+                                if isinstance(cx, tuple) and cx[0] == 'bin' and cx[1] in ('Eq', 'Ne') and ('const', 0) in (cx[2], cx[3]) and \
+                                        any(isinstance(y, tuple) and y[0] == 'place' and len(y) == 2 for y in (cx[2], cx[3])):
+                                    okx = True
+                            if not okx:
+                                bad_exit = (x, show(st.E.switch_cond(blkx))[:70] if blkx.term.k == 'switch' else blkx.term.k)
+            if ups and cls and okc and bad_exit is None:
+                T3.ok(sample={'end_of_input_updates': len(ups), 'refreshes': len(cls), 'update_guard': 'buffered_lcs.contains(lc.id)', 'publication_loop_exits': n_exits, 'all_exits': 'iteration exhausted or counter == 0'})
+            elif ups and cls and okc:
+                T3.violation(('final-publication-loop-exit', b.path), 'the end-of-input publication loop can be left on `%s` at %s before every lifecycle was looked at: a still-buffered older lifecycle behind a confirmed newer one is never published although its queued messages are flushed' %
+                             (bad_exit[1], b.loc(b.blocks[bad_exit[0]].term.sp)), where=b.loc(b.blocks[bad_exit[0]].term.sp))
             else:
                 T3.violation(('final-publication-missing', b.path), 'between end of input and the final flush there is no update under buffered_lcs.contains(..) followed by refresh (updates=%d refreshes=%d guarded=%s)' % (len(ups), len(cls), okc),
                              where=b.loc(b.blocks[fb].term.sp))
